@@ -7,5 +7,10 @@ if ! /venv/bin/python -c "import hypothesis, numpy, scipy" 2>/dev/null; then
   /venv/bin/pip install --no-index --find-links /opt/veriftools/wheels hypothesis numpy scipy || exit 2
 fi
 /venv/bin/python -c "import hypothesis, numpy, scipy; print('hypothesis', hypothesis.__version__, 'numpy', numpy.__version__)" || exit 2
+# atheris (coverage-guided stage of the thorough tier) goes beside the framework, not into /venv; if it cannot be
+# installed the thorough tier records the stage as skipped and the Hypothesis tiers are unaffected
+if [ ! -d .deps/atheris ]; then
+  /venv/bin/pip install -q --no-index --find-links /opt/veriftools/wheels --target .deps atheris >/dev/null 2>&1 || echo "setup: atheris not installed (coverage-guided stage will be skipped)"
+fi
 mkdir -p evidence out
 exit 0
